@@ -204,19 +204,28 @@ def run_property(pid, tier, seed, replay=None):
         if rc != 0:
             broken.append(dict(kind="coqchk", name=mod, detail=(out + err)[-800:]))
 
-    # 3. correspondence
+    # 3. correspondence: (a) the property's own generator, (b) PySem vs CPython on concrete inputs (harness/corr_pysem.py)
     corr = None
+    corr_runs = []
     if cfg.get("corr"):
-        cout = os.path.join(bdir, "corr.json")
-        rc, out, err, dt = sh([PY, os.path.join(VERIF, "harness", cfg["corr"]), "--tier", tier, "--seed", str(seed), "--out", cout,
-                               "--builddir", bdir], cfg.get("corr_timeout", 600 if tier == "quick" else 2400), cwd=VERIF, env=env)
-        log.append("corr rc=%d %.1fs" % (rc, dt))
+        corr_runs.append((cfg["corr"], [PY, os.path.join(VERIF, "harness", cfg["corr"]), "--tier", tier, "--seed", str(seed)], "corr.json"))
+    if cfg.get("pysem_cases") and os.path.exists(os.path.join(bdir, "Src.vo")):
+        corr_runs.append(("corr_pysem.py", [PY, os.path.join(VERIF, "harness", "corr_pysem.py"), "--prop", pid, "--tier", tier, "--seed", str(seed)], "corr_pysem.json"))
+    for cname, ccmd, cfile in corr_runs:
+        cout = os.path.join(bdir, cfile)
+        rc, out, err, dt = sh(ccmd + ["--out", cout, "--builddir", bdir], cfg.get("corr_timeout", 600 if tier == "quick" else 2400), cwd=VERIF, env=env)
+        log.append("%s rc=%d %.1fs" % (cname, rc, dt))
         if rc != 0 or not os.path.exists(cout):
-            broken.append(dict(kind="correspondence", name=cfg["corr"], detail=(out + err)[-1200:]))
+            broken.append(dict(kind="correspondence", name=cname, detail=(out + err)[-1200:]))
         else:
-            corr = json.load(open(cout))
-            for mm in corr.get("mismatches", [])[:5]:
-                broken.append(dict(kind="correspondence", name=mm.get("case", "case"), detail=json.dumps(mm)[:1200]))
+            c1 = json.load(open(cout))
+            for mm in c1.get("mismatches", [])[:5]:
+                broken.append(dict(kind="correspondence", name="%s:%s" % (cname, mm.get("case", "case")), detail=json.dumps(mm)[:1200]))
+            if corr is None:
+                corr = dict(cases=0, mismatches=[], parts={})
+            corr["cases"] += c1.get("cases", 0)
+            corr["mismatches"] += c1.get("mismatches", [])
+            corr["parts"][cname] = {k: c1[k] for k in c1 if k != "mismatches"}
 
     # 4. oracle (guided by what broke, if anything)
     oracle = None
